@@ -371,7 +371,8 @@ pub fn cyclic_parents(rng: &mut Rng, layout: &Layout) -> DocSpec {
 pub fn deep_tree(rng: &mut Rng, layout: &Layout) -> DocSpec {
     let mut b = Builder::new();
     let catalog = b.reserve();
-    let depth = 10 + rng.usize(6); // nested nodes below the root: 10..=15
+    // nested nodes below the root: the maximum get_page accepts (15) half of the time, else 11..=14
+    let depth = if rng.coin() { 15 } else { 11 + rng.usize(4) };
     let nodes: Vec<u32> = (0..=depth).map(|_| b.reserve()).collect();
     let mut counts = vec![0i64; depth + 1];
     let mut extra_leaf: Vec<Option<u32>> = vec![None; depth + 1];
